@@ -1,5 +1,6 @@
 """C01 — agreement: the four anchored mechanisms and their wiring (necessary conditions; agreement itself is not decided)."""
 from engine import query as Q
+from . import common
 from engine.terms import show, subterms
 from engine.guards import Atom, Walker, field_path, chain, Inliner
 from .phase_gate import SM, sign_blocks, CHONKY_MSG
@@ -35,8 +36,9 @@ def rule_provenance(ctx):
                 how = ("high_qc() of the certificate argument `%s` of %s (itself covered at its call sites)" % (show(base), where)) if base[0] in ("upvar", "param") else None
                 ok = how is not None
             # (a) inside the handled message
-            elif any(x[0] in ("upvar", "param") and x[-1] == "signed_message" for x in subs):
-                e = Q.success_edges(ctx, f, lambda b: b[0] == "call" and b[1].endswith(("LeaderProposal::verify", "ReplicaNewView::verify", "ReplicaTimeout::verify", "ReplicaCommit::verify")) and any(y[0] in ("upvar", "param") and y[-1] == "signed_message" for y in subterms(b)))
+            elif any(common.is_p(x, common.pnames(f, "::Signed<")) for x in subs):
+                sm_names = common.pnames(f, "::Signed<")
+                e = Q.success_edges(ctx, f, lambda b: b[0] == "call" and b[1].endswith(("LeaderProposal::verify", "ReplicaNewView::verify", "ReplicaTimeout::verify", "ReplicaCommit::verify")) and any(common.is_p(y, sm_names) for y in subterms(b)))
                 ok = bool(e) and cfg.must_pass(c["bb"], e)
                 how = "part of the handled message; message.verify(..) success dominates the call"
             else:
@@ -77,7 +79,7 @@ def rule_commit_path(ctx):
     if agg is not None:
         d = dict(agg[3])
         j, p = d.get("justification"), d.get("payload")
-        okj = j in (("upvar", "commit_qc"), ("param", 3, "commit_qc"))
+        okj = j is not None and common.is_p(j, common.pnames(f, "CommitQC"))
         gets = [x for x in subterms(p) if x[0] == "call" and x[1].endswith(("HashMap::get", "BTreeMap::get"))]
         okp = len(gets) >= 2 and any(chain(g[2][1])[1][-2:] == ["header()", "payload"] for g in gets) and any(chain(g[2][1])[1][-2:] == ["header()", "number"] for g in gets) and \
             any(chain(g[2][0])[1][-1:] == ["block_proposal_cache"] for g in gets)
@@ -90,7 +92,7 @@ def rule_commit_path(ctx):
     g = ctx.body(SM + "::process_commit_qc")
     Tg = ctx.T(g)
     sb = [Tg.args_of(c) for c in Tg.calls() if (c["rq"] or c["q"]) == SM + "::save_block"]
-    oks = bool(sb) and all(a[2] in (("upvar", "qc"),) for a in sb)
+    oks = bool(sb) and all(common.is_p(a[2], common.pnames(g, "CommitQC")) for a in sb)
     ctx.ob(R, "saved certificate", oks, "process_commit_qc saves the block of the very certificate it adopts" if oks else "save_block argument: %s" % [show(a[2]) for a in sb], g.loc())
 
 
